@@ -258,6 +258,9 @@ class MPI(long):
         return ((self.bit_length() + 7) // 8)
 
     def to_mpibytes(self):
+        if self == 0:
+            # RFC 4880 3.2: the value zero has a bit count of zero and no magnitude octets
+            return MPIs.int_to_bytes(0, 2)
         return MPIs.int_to_bytes(self.bit_length(), 2) + MPIs.int_to_bytes(self, self.byte_length())
 
     def __len__(self):
